@@ -24,6 +24,9 @@ Proof.
   replace (n <=? 4294967295) with false by lia. reflexivity.
 Qed.
 
+Lemma write_varint_is_compact n : write_varint n = compact n.
+Proof. symmetry. apply compact_eq_write_varint. Qed.
+
 Lemma get_varint_bytes_eq_write_varint n : get_varint_bytes n = write_varint n.
 Proof. reflexivity. Qed.
 
@@ -314,6 +317,15 @@ Proof.
   intros Hs. unfold satoshis_out, spec_total_out, fields_of in *. cbn [f_outs] in *.
   change (fold_left (sat_step true) (outputs t) (Ok 0) = Panic).
   apply sat_fold_overflow; [rewrite N.add_0_l; exact Hs | unfold u64; lia].
+Qed.
+
+Lemma accessors_of_fields (H : bytes -> bytes) t oc :
+  tx_size t = N.of_nat (length (encode_tx_spec (fields_of t))) /\ tx_id H t = rev (H (encode_tx_spec (fields_of t)))
+  /\ tx_outpoints t = spec_outpoints (fields_of t) /\ tx_is_coinbase t = spec_is_coinbase (fields_of t)
+  /\ (spec_total_out (fields_of t) < u64 -> satoshis_out oc t = Ok (spec_total_out (fields_of t))).
+Proof.
+  exact (conj (tx_size_spec t) (conj (tx_id_spec H t) (conj (tx_outpoints_spec t)
+          (conj (tx_is_coinbase_spec t) (satoshis_out_spec oc t))))).
 Qed.
 
 (* ------------------------------------------------------------------ *)
@@ -913,3 +925,132 @@ Section AccessorsOnBytes.
     do 10 (split; [reflexivity|]). apply satoshis_out_spec.
   Qed.
 End AccessorsOnBytes.
+
+(* ------------------------------------------------------------------ *)
+(* 10. the parser and the independent decoder read the same fields from EVERY byte string the parser accepts
+   (canonical or not): numbers and ids are identical, scripts are the decoder's raw bytes run through the
+   script parser (coinbase data kept verbatim) *)
+Lemma read_exact_take_exact n bs : read_exact n bs = take_exact n bs.
+Proof.
+  unfold read_exact, take_exact. destruct (Nat.leb n (length bs)) eqn:E.
+  - apply Nat.leb_le in E. replace (Nat.ltb (length bs) n) with false by (symmetry; apply Nat.ltb_ge; exact E). reflexivity.
+  - apply Nat.leb_gt in E. replace (Nat.ltb (length bs) n) with true by (symmetry; apply Nat.ltb_lt; exact E). reflexivity.
+Qed.
+Lemma read_le_take_int w bs : read_le w bs = take_int w bs.
+Proof. unfold read_le, take_int. rewrite read_exact_take_exact. reflexivity. Qed.
+Lemma read_exactN_take_len n bs : read_exactN n bs = take_len n bs.
+Proof.
+  unfold read_exactN, take_len. destruct (n <=? N.of_nat (length bs)) eqn:E.
+  - replace (N.of_nat (length bs) <? n) with false by lia. reflexivity.
+  - replace (N.of_nat (length bs) <? n) with true by lia. reflexivity.
+Qed.
+Lemma read_varint_read_compact bs :
+  read_varint bs = match read_compact bs with Some (n, _, r) => Ok (n, r) | None => Err end.
+Proof.
+  destruct bs as [|b bs']; [reflexivity|]. cbn [read_varint read_compact]. pose proof (b2n_lt b) as Hb.
+  destruct (b2n b =? 255) eqn:E1; [|destruct (b2n b =? 254) eqn:E2; [|destruct (b2n b =? 253) eqn:E3]].
+  - replace (b2n b <? 253) with false by lia. replace (b2n b =? 253) with false by lia. replace (b2n b =? 254) with false by lia.
+    rewrite read_le_take_int. destruct (take_int 8 bs') as [[v r]|]; reflexivity.
+  - replace (b2n b <? 253) with false by lia. replace (b2n b =? 253) with false by lia.
+    rewrite read_le_take_int. destruct (take_int 4 bs') as [[v r]|]; reflexivity.
+  - replace (b2n b <? 253) with false by lia.
+    rewrite read_le_take_int. destruct (take_int 2 bs') as [[v r]|]; reflexivity.
+  - replace (b2n b <? 253) with true by lia. reflexivity.
+Qed.
+
+Definition in_agrees (i : txin) (fi : in_fields) : Prop :=
+  prev_tx_id i = f_prev fi /\ vout i = f_vout fi /\ sequence i = f_seq fi
+  /\ (if null_outpoint fi then unlocking i = [BCoinbase (f_script fi)] else from_bytes (f_script fi) = Ok (unlocking i)).
+Definition out_agrees (o : txout) (fo : out_fields) : Prop :=
+  value o = f_value fo /\ from_bytes (f_pk fo) = Ok (script_pub_key o).
+
+Lemma read32_padded_take bs r0 idle :
+  read32_padded bs = (idle, r0) ->
+  match take_exact 32 bs with Some (a, r) => idle = a /\ r0 = r | None => r0 = [] \/ (length r0 < 4)%nat end.
+Proof.
+  unfold read32_padded, take_exact. intros H.
+  assert (E1 : idle = firstn 32 bs ++ repeat x00 (32 - length (firstn 32 bs))) by congruence.
+  assert (E2 : r0 = skipn 32 bs) by congruence. clear H. subst idle r0.
+  destruct (Nat.ltb (length bs) 32) eqn:E.
+  - left. apply skipn_all2. apply Nat.ltb_lt in E. lia.
+  - apply Nat.ltb_ge in E. rewrite firstn_length_le by exact E. rewrite Nat.sub_diag. cbn [repeat]. rewrite app_nil_r. auto.
+Qed.
+
+Lemma txin_read_decode bs i r :
+  txin_read bs = Ok (i, r) -> exists fi m, decode_in bs = Some (fi, m, r) /\ in_agrees i fi.
+Proof.
+  unfold txin_read, decode_in.
+  destruct (read32_padded bs) as [idle r0] eqn:E32. apply read32_padded_take in E32.
+  rewrite read_le_take_int.
+  destruct (take_exact 32 bs) as [[a ra]|].
+  - destruct E32 as [-> ->].
+    destruct (take_int 4 ra) as [[vo r1]|]; cbn [of_option bind]; [|discriminate].
+    rewrite read_varint_read_compact.
+    destruct (read_compact r1) as [[[slen m] r2]|]; cbn [bind]; [|discriminate].
+    rewrite read_exactN_take_len.
+    destruct (take_len slen r2) as [[sb r3]|]; cbn [of_option bind]; [|discriminate].
+    rewrite read_le_take_int.
+    destruct (take_int 4 r3) as [[sq r4]|]; cbn [of_option bind]; [|discriminate].
+    destruct (is_coinbase_outpoint (rev a) vo) eqn:Ecb.
+    + cbn [bind]. intros H; inversion H; subst. eexists; eexists; split; [reflexivity|].
+      unfold in_agrees. rewrite null_outpoint_model. cbn [f_prev f_vout f_seq f_script prev_tx_id vout sequence unlocking].
+      rewrite Ecb. auto.
+    + destruct (from_bytes sb) as [scr| |] eqn:Es; cbn [bind]; try discriminate.
+      intros H; inversion H; subst. eexists; eexists; split; [reflexivity|].
+      unfold in_agrees. rewrite null_outpoint_model. cbn [f_prev f_vout f_seq f_script prev_tx_id vout sequence unlocking].
+      rewrite Ecb. auto.
+  - (* fewer than 32 bytes: nothing is left for the output index *)
+    assert (Hno : take_int 4 r0 = None).
+    { unfold take_int, take_exact. destruct E32 as [-> | Hl]; [reflexivity|].
+      replace (Nat.ltb (length r0) 4) with true by (symmetry; apply Nat.ltb_lt; exact Hl). reflexivity. }
+    rewrite Hno. cbn [of_option bind]. discriminate.
+Qed.
+
+Lemma txout_read_decode bs o r :
+  txout_read bs = Ok (o, r) -> exists fo m, decode_out bs = Some (fo, m, r) /\ out_agrees o fo.
+Proof.
+  unfold txout_read, decode_out. rewrite read_le_take_int.
+  destruct (take_int 8 bs) as [[v r1]|]; cbn [of_option bind]; [|discriminate].
+  rewrite read_varint_read_compact.
+  destruct (read_compact r1) as [[[slen m] r2]|]; cbn [bind]; [|discriminate].
+  rewrite read_exactN_take_len.
+  destruct (take_len slen r2) as [[sb r3]|]; cbn [of_option bind]; [|discriminate].
+  destruct (from_bytes sb) as [scr| |] eqn:Es; cbn [bind]; try discriminate.
+  intros H; inversion H; subst. eexists; eexists; split; [reflexivity|]. split; [reflexivity | exact Es].
+Qed.
+
+Lemma read_many_decode {A B} (rd : bytes -> outcome (A * bytes)) (item : bytes -> option (B * bool * bytes)) (R : A -> B -> Prop) :
+  (forall bs a r, rd bs = Ok (a, r) -> exists b m, item bs = Some (b, m, r) /\ R a b) ->
+  forall fuel n bs l r, read_many rd fuel n bs = Ok (l, r) ->
+    exists bl m, decode_list item fuel n bs = Some (bl, m, r) /\ Forall2 R l bl.
+Proof.
+  intros HR. induction fuel as [|f IH]; intros n bs l r H; cbn [read_many decode_list] in *;
+    destruct (n =? 0) eqn:En; try discriminate;
+    try (inversion H; subst; eexists; eexists; split; [reflexivity | constructor]).
+  destruct (rd bs) as [[a r1]| |] eqn:Ea; cbn [bind] in H; try discriminate.
+  destruct (read_many rd f (n - 1) r1) as [[l1 r2]| |] eqn:El; cbn [bind] in H; try discriminate.
+  inversion H; subst. apply HR in Ea. destruct Ea as (b & m & Eb & Rab). apply IH in El. destruct El as (bl & ml & Ebl & Rl).
+  rewrite Eb, Ebl. eexists; eexists; split; [reflexivity | constructor; assumption].
+Qed.
+
+Theorem parse_decode_agree bs t :
+  tx_from_bytes bs = Ok t ->
+  exists d, decode_tx_spec bs = Some d
+    /\ version t = f_version (d_fields d) /\ locktime t = f_locktime (d_fields d)
+    /\ Forall2 in_agrees (inputs t) (f_ins (d_fields d)) /\ Forall2 out_agrees (outputs t) (f_outs (d_fields d)).
+Proof.
+  unfold tx_from_bytes, decode_tx_spec. rewrite read_le_take_int.
+  destruct (take_int 4 bs) as [[ver r0]|]; cbn [of_option bind]; [|discriminate].
+  rewrite read_varint_read_compact.
+  destruct (read_compact r0) as [[[nin m1] r1]|]; cbn [bind]; [|discriminate].
+  destruct (read_many txin_read _ nin r1) as [[ins r2]| |] eqn:E2; cbn [bind]; try discriminate.
+  apply (read_many_decode txin_read decode_in in_agrees txin_read_decode) in E2. destruct E2 as (fins & m2 & E2 & Rins). rewrite E2.
+  rewrite read_varint_read_compact.
+  destruct (read_compact r2) as [[[nout m3] r3]|]; cbn [bind]; [|discriminate].
+  destruct (read_many txout_read _ nout r3) as [[outs r4]| |] eqn:E4; cbn [bind]; try discriminate.
+  apply (read_many_decode txout_read decode_out out_agrees txout_read_decode) in E4. destruct E4 as (fouts & m4 & E4 & Routs). rewrite E4.
+  rewrite read_le_take_int.
+  destruct (take_int 4 r4) as [[lt r5]|]; cbn [of_option bind]; [|discriminate].
+  intros H; inversion H; subst. eexists; split; [reflexivity|].
+  cbn [d_fields f_version f_locktime f_ins f_outs version locktime inputs outputs]. auto.
+Qed.
